@@ -12,7 +12,7 @@ RULE = ("random operation sequences (5..60 ops) over a pool {base index, views, 
         "edismax; postings straddle cache_gt_than (0,1,3,25) and the 255-word warm threshold. Each op's output is "
         "compared with the cache-aware Coq state machine; at the end every earlier query is repeated and compared with "
         "its first answer and with the answer of a freshly built array, and every array returned earlier is checked to be "
-        "unmodified. Non-trivial = a sequence with a select on a view and a repeated query after it. Distinct by hash.")
+        "unmodified. Non-trivial = a sequence with a select on a view (every query of every sequence is repeated at its end). Distinct by hash.")
 TRUSTED = B.TRUSTED + ["pickle round trips are mapped to copy in the state machine (outputs do not depend on which)"]
 ASSUMPTIONS = B.ASSUMPTIONS
 EXPLANATION = ("Theorems (Props/C07.v): cache invariant preserved by every operation; under it every output equals the "
